@@ -550,6 +550,30 @@ impl Heap {
     }
 }
 
+/// Verification hooks: read-only accessors
+#[cfg(marwood_verif)]
+impl Heap {
+    pub fn verif_cells(&self) -> &[VCell] {
+        &self.heap
+    }
+
+    pub fn verif_gc_state(&self, index: usize) -> Option<State> {
+        self.heap_map.get(index)
+    }
+
+    pub fn verif_free_list(&self) -> &[usize] {
+        &self.free_list
+    }
+
+    pub fn verif_symbol_table(&self) -> &HashMap<String, usize> {
+        &self.symbol_table
+    }
+
+    pub fn verif_chunk_size(&self) -> usize {
+        self.chunk_size
+    }
+}
+
 #[cfg(test)]
 mod tests {
     use super::*;
